@@ -48,7 +48,22 @@ pub fn case(ctx: &mut Ctx, idx: u64) {
 
     for target in MODES {
         let tname = mode_name(target);
-        let spec = sets::gen_setspec(&mut rng, target, SetDomain::Game).without_passed();
+        // every comparison below gives the same settings to both sides, so a passed_objects limit (0 and 1 in particular:
+        // the calculators have early returns for them) is part of the settings space
+        let spec = sets::gen_setspec(&mut rng, target, SetDomain::Game);
+        let spec = if rng.chance(0.4) {
+            let n = map.hit_objects.len() as u64;
+            let p = match rng.below(6) {
+                0 | 1 => 0,
+                2 => 1,
+                3 => 2,
+                _ => rng.below(n + 3) as u32,
+            };
+            ctx.count(if p == 0 { "class:passed_objects(0)" } else { "class:passed_objects(n)" });
+            spec.with_passed(p)
+        } else {
+            spec.without_passed()
+        };
         let mods = spec.mods.to_gamemods(target);
         let d = spec.to_difficulty(target);
         let expect_ok = (map.mode == GameMode::Osu && !map.is_convert) || target == map.mode;
